@@ -164,7 +164,7 @@ fn build_world(threads: usize, candidates: usize) -> World {
 
     // key material: the two candidates with the longest common prefix of the compressed verification
     // key join the pool together with the first three others
-    let (_, a, b, candidates) = if let Ok(v) = std::env::var("C06_PAIR") { let x: Vec<usize> = v.split(',').map(|t| t.parse().unwrap()).collect(); (0, x[0], x[1], candidates) } else { search_equal_prefix_pair(threads, candidates) };
+    let (_, a, b, candidates) = search_equal_prefix_pair(threads, candidates);
     let mut chosen = vec![a, b];
     for j in 0..candidates {
         if chosen.len() < POOL && !chosen.contains(&j) {
@@ -207,15 +207,6 @@ fn build_world(threads: usize, candidates: usize) -> World {
             stm_init,
             inits,
         });
-    }
-    if std::env::var("C06_PAIR").is_ok() {
-        let (k0, k1) = (parties[0].vk.vk, parties[1].vk.vk);
-        eprintln!("vk0={}\nvk1={}\ncmp={:?} eq={}", hex::encode(k0.to_bytes()), hex::encode(k1.to_bytes()), k0.cmp(&k1), k0 == k1);
-        let mut kr = KeyRegistration::initialize();
-        eprintln!("r0={:?}", kr.register(1, &parties[0].vk.into_inner()).map_err(|e| format!("{e:#}")));
-        eprintln!("r1={:?}", kr.register(1, &parties[1].vk.into_inner()).map_err(|e| format!("{e:#}")));
-        let c = kr.close_registration(&params).unwrap();
-        eprintln!("total={} n={}", c.total_stake, c.number_of_registered_parties());
     }
     let mut msg = ProtocolMessage::new();
     msg.set_message_part(ProtocolMessagePartKey::SnapshotDigest, "c06-digest".to_string());
